@@ -35,9 +35,11 @@ TECHNIQUE = ('runtime post-condition monitors on transform / transform_w_scipy_f
              'get_max_tifq_vals_freq with a direct-sum (no FFT) reference S-transform and DFT; argument-purity monitors; '
              'driver-side linearity relation and back-to-back re-checks of held results')
 RULE = ('cases = (record, container, implementation | dt) calls of the real functions. Definition part: EVERY length 4..64 x '
-        '21 record classes (noise, ground-motion windows, walks, chirps, impulses, steps, plateaus, constants, flat starts/ends, '
+        '27 record classes (noise, ground-motion windows, walks, chirps, impulses, steps, plateaus, constants, flat starts/ends, '
         'extreme at the first/last sample, sign change at the last step, small signal on a large offset, micro 1e-12..1e-9 '
-        'and macro 1e9..1e12 amplitudes; thorough: twice) plus lengths around every power of two up to 1024 and random '
+        'and macro 1e9..1e12 amplitudes, monotone ramps, one-sided negative records, Nyquist-frequency energy on top of noise, '
+        'tail-heavy (exact zeros then action in the last 1/8), a constant with one changed sample, one sample 1e3..1e12 times '
+        'the rest; extreme-scale classes also as float32; thorough: twice) plus lengths around every power of two up to 1024 and random '
         'lengths; containers float64/float32/int64/int32/int16/int8/uint8/uint16 (values filling the dtype range), lists and '
         'tuples of floats / ints / mixed, strided, reversed and read-only views. Each case passes ONE argument object to both '
         'implementations (positional / keyword / interp=False forms), inverts one result and feeds the other to the '
@@ -50,7 +52,7 @@ RULE = ('cases = (record, container, implementation | dt) calls of the real func
         'list / strided / read-only records; each sinusoid is transformed, inverted and driven through '
         'get_max_stockwell_freq(AccSignal(record, dt)) and get_max_tifq_vals_freq(transform or a derived form, dt) for 2..8 dt '
         'per record (nice decimals and the 1/k floor-trap list cycled against the lengths, 1/k for random k <= 1000, '
-        'log-uniform over [1e-9, 1e3], [1e-4, 10], [1e-3, 1]; Python float / int / numpy float64 / float32 scalars). For every N '
+        'log-uniform over [1e-9, 1e3], [1e-3, 1], gen.awkward_dt for k = N/2 and k = N (quotients that do not recover k); Python float / int / numpy float64 / float32 scalars). For every N '
         'of the every-N block one same-object history: twin objects from one caller array and from each other\'s values, '
         'repeated calls (cached swtf), reads of other cached quantities in between, the caller-presets-swtf idiom, then '
         'reset_values and 3 of 8 further mutators (add_constant, add_series, remove_average, remove_poly, butter_pass, '
@@ -82,6 +84,12 @@ ASSUMPTIONS = ['real, finite records of length 4..1024 (complex input, scalars, 
                'c15.caller_attach (the driver\'s explicit presets): whatever the library memoised, carried over or assembled '
                '(combine_at_angle, interp_to_approx_dt, Cluster, deepcopy) must be the transform of the values the object has '
                'at call entry (clause asig.swtf==transform(values)) and the trace is judged against the reference of those values',
+               'range of validity of the tolerances: every bound is relative to a scale computed from the record (sum|x| per '
+               'cell and per row sum, N*max|x| for the inverse, relative frequency error), so it holds for amplitudes 1e-12..1e12 '
+               'in float64 and float32 (far from the subnormal / overflow range of either dtype) and is multiplied by '
+               'eps32/eps64 for float32 records; the per-cell bound is GLOBAL (relative to sum|x| of the whole record, as in '
+               'DESIGN (d)): with one sample 1e3..1e12 times larger than the rest an FFT-based transform cannot be more '
+               'accurate than eps*|spike| anywhere, so no local scale is demanded',
                'oracle vf/oracles/stransform.py is correct (vectorised direct sums, cross-checked in every run against the '
                'literal scalar triple loop on short records)']
 MIN_EVALS = {
@@ -102,6 +110,7 @@ MIN_EVALS = {
         'argument-unchanged(get_max_stockwell_freq)': 6500, 'argument-unchanged(sequence)': 3000,
         'maxfreq(asig)==f.after-mutation[even]': 350, 'maxfreq(asig)==f.after-mutation[odd]': 350,
         'asig.swtf==transform(values)[even]': 1100, 'asig.swtf==transform(values)[odd]': 1100,
+        'object-unchanged(get_max_stockwell_freq)': 500, 'result-owns-its-data': 45000,
         'oracle.vectorised==scalar': 8,
     },
     'thorough': {
@@ -121,6 +130,7 @@ MIN_EVALS = {
         'argument-unchanged(get_max_stockwell_freq)': 19500, 'argument-unchanged(sequence)': 7700,
         'maxfreq(asig)==f.after-mutation[even]': 700, 'maxfreq(asig)==f.after-mutation[odd]': 700,
         'asig.swtf==transform(values)[even]': 2200, 'asig.swtf==transform(values)[odd]': 2200,
+        'object-unchanged(get_max_stockwell_freq)': 1500, 'result-owns-its-data': 100000,
         'oracle.vectorised==scalar': 8,
     },
 }
@@ -529,6 +539,16 @@ def check_maxfreq(ctx, via, rec, kind, dt, amp, result, wit, tag='', amp_is_refe
               % (tag, k, n_pts, n, kind, float(np.max(np.abs(O.even_part(rec)))), dt, f, why))
 
 
+def _owns(ctx, fn, result, others, wit):
+    """A returned array must not share memory with an argument (in-place work on the result would corrupt it)."""
+    shared = False
+    if isinstance(result, np.ndarray):
+        for o in others:
+            if isinstance(o, np.ndarray) and np.may_share_memory(result, o):
+                shared = True
+    ctx.check(not shared, 'result-owns-its-data', wit, 'the array returned by %s shares memory with one of its arguments' % fn)
+
+
 def _pre_transform(args, kwargs):
     acc = args[0] if args else kwargs.get('acc')
     interp = args[1] if len(args) > 1 else kwargs.get('interp', False)
@@ -544,6 +564,7 @@ def _post_transform_factory(impl):
         if rec is not None:
             ctx.check(_same_bits(acc, rec), 'argument-unchanged(%s)' % impl, lambda: _wit(impl, rec, kind, kw=kw),
                       '%s modified its record argument (%s, length %d): %s' % (impl, kind, rec.size, _first_change(acc, rec)))
+            _owns(ctx, impl, result, [acc], lambda: _wit(impl, rec, kind, kw=kw))
         if skip:
             ctx.observe('%s:%s' % (impl, skip))
             return
@@ -583,6 +604,8 @@ def _post_itransform(args, kwargs, result, snap):
         ctx.check(_same_bits(stock, snap), 'argument-unchanged(itransform)',
                   lambda: _wit('itransform', info['record'], info['kind'], impl=info['impl'], derived=info.get('derived')),
                   'itransform modified its argument: %s' % _first_change(stock, snap))
+        _owns(ctx, 'itransform', result, [stock],
+              lambda: _wit('itransform', info['record'], info['kind'], impl=info['impl'], derived=info.get('derived')))
     if info is None or info.get('derived') not in VALUE_PRESERVING:
         ctx.observe('itransform:input-not-a-monitored-transform')
         return
@@ -657,6 +680,7 @@ def _post_maxfreq_asig(args, kwargs, result, pre):
     ctx.check(pure, 'argument-unchanged(get_max_stockwell_freq)', wit,
               'get_max_stockwell_freq modified the values or the attached swtf of its signal object: %s'
               % (_first_change(asig.values, vals0) if not _same_bits(asig.values, vals0) else 'swtf changed'))
+    _owns(ctx, 'get_max_stockwell_freq', result, [asig.values, getattr(asig, 'swtf', None)], wit)
     rec, kind, skip = _intake(vals0)
     if skip:
         ctx.observe('maxfreq(asig):%s' % skip)
@@ -719,6 +743,7 @@ def _post_maxfreq_tifq(args, kwargs, result, snap):
                        derived=info.get('derived'))
     ctx.check(_same_bits(tifq, snap), 'argument-unchanged(get_max_tifq_vals_freq)', wit,
               'get_max_tifq_vals_freq modified its time-frequency argument: %s' % _first_change(tifq, snap))
+    _owns(ctx, 'get_max_tifq_vals_freq', result, [tifq], wit)
     check_maxfreq(ctx, 'tifq', rec, kind, dt, np.abs(np.asarray(snap)), result, wit)
 
 
@@ -896,10 +921,21 @@ def drive_sinusoid(ctx, eqsig, cont, dts, impl, tform):
     kind = _kind(cont)
     rec = np.array(cont)
     par = _par(len(rec))
+    first = _call(ctx, '%s==definition[%s]' % (impl, par), lambda: _wit(impl, rec, kind), getattr(sw, impl), cont)
+    if isinstance(first, np.ndarray):
+        first[...] = 0                 # the caller owns what was returned: clobber it, then ask again
     s = _call(ctx, '%s==definition[%s]' % (impl, par), lambda: _wit(impl, rec, kind), getattr(sw, impl), cont)
     t = None
     if s is not None:
+        inv = _call(ctx, 'inverse==record-mean-nyquist[%s]' % par, lambda: _wit('itransform', rec, kind, impl=impl), sw.itransform, s)
+        if isinstance(inv, np.ndarray) and inv.flags.writeable:
+            inv[...] = 0
         _call(ctx, 'inverse==record-mean-nyquist[%s]' % par, lambda: _wit('itransform', rec, kind, impl=impl), sw.itransform, s)
+    try:
+        drive_object_purity(ctx, eqsig, cont, dts[0], _SEQ[-1])
+    except Exception as ex:   # noqa
+        ctx.exception('object-unchanged(get_max_stockwell_freq)', _SEQ[-1](), ex)
+    if s is not None:
         t = derive(s, tform)
         remember(t, s, tform)
     for i, dt in enumerate(dts):
@@ -1098,6 +1134,44 @@ def drive_out_of_domain(ctx, eqsig, rng):
         ctx.observe('out-of-domain:nested-list-tifq-rejected')
 
 
+OBSERVABLES = ('values', 'dt', 'npts', 'label', 'time', 'fa_spectrum', 'fa_frequencies', 'smooth_fa_freqs', 'response_times',
+               'pga')
+
+
+def _observables(asig):
+    """Every public observable, read on a deep copy (reading on the object itself would fill its caches), plus the names of
+    the attributes the object carries (the memoised swtf excepted: that one is allowed to appear)."""
+    import copy
+    d = copy.deepcopy(asig)
+    d.__dict__.pop('swtf', None)
+    out = {}
+    for name in OBSERVABLES:
+        try:
+            out[name] = _snapshot(getattr(d, name))
+        except Exception as ex:   # noqa
+            out[name] = np.array('raised %s' % type(ex).__name__)
+    out['attribute names'] = np.array(sorted(k for k in vars(asig) if k != 'swtf'))
+    return out
+
+
+def drive_object_purity(ctx, eqsig, cont, dt, wit):
+    """get_max_stockwell_freq on one object: every public observable unchanged (first call and call on the memoised swtf);
+    the caller clobbers the returned trace in place and calls again (judged online)."""
+    sw = eqsig.stockwell
+    asig = eqsig.AccSignal(cont, dt)
+    before = _observables(asig)
+    r = sw.get_max_stockwell_freq(asig)
+    r2 = sw.get_max_stockwell_freq(asig)
+    after = _observables(asig)
+    changed = [k for k in before if not _same_bits(after[k], before[k])]
+    ctx.check(not changed, 'object-unchanged(get_max_stockwell_freq)', wit,
+              'public observables of the signal object changed by get_max_stockwell_freq: %s' % ', '.join(changed))
+    for arr in (r, r2):
+        if isinstance(arr, np.ndarray) and arr.flags.writeable:
+            arr[...] = -1.0            # the caller owns what was returned
+    sw.get_max_stockwell_freq(asig)
+
+
 def sinusoid(rng, length, k, amp=None):
     """Stationary sinusoid at harmonic k of the even-truncated length; random phase; amplitude 1, 10^U(-2,2) or 10^U(-12,12)."""
     n_pts = 2 * (length // 2)
@@ -1131,7 +1205,7 @@ def sinusoid_container(rng, x, sel):
     return tuple(float(v) for v in x)
 
 
-def draw_dts(rng, idx, count):
+def draw_dts(rng, idx, count, n_pts=None):
     """count time steps cycling deterministically through the nice decimals and the 1/k floor-trap list (so that every
     listed value meets many lengths), plus 1/k for random integer k, log-uniform draws over three ranges, and the scalar
     forms Python int, numpy float64 and numpy float32."""
@@ -1151,7 +1225,11 @@ def draw_dts(rng, idx, count):
         elif sel == 5:
             out.append(gen.dt(rng, 'log'))
         elif sel == 6:
-            out.append(float(10.0 ** rng.uniform(-4, 1)))
+            # awkward for the frequency axis: dt/(dt/k) != k, (dt/k)*k != dt for k = N/2 voices or N samples
+            if n_pts:
+                out.append(gen.awkward_dt(rng, (n_pts // 2) if (idx + c // 8) % 2 else n_pts))
+            else:
+                out.append(float(10.0 ** rng.uniform(-4, 1)))
         else:
             form = (idx + c // 8) % 4
             if form == 0:
@@ -1166,7 +1244,9 @@ def draw_dts(rng, idx, count):
 
 
 CLASSES_A = ['noise', 'quake', 'walk', 'chirp', 'impulse', 'plateau', 'beat', 'step', 'hat', 'alt', 'zeropad', 'intnoise',
-             'sine', 'const', 'flat-ends', 'extreme-first', 'extreme-last', 'sign-change-end', 'offset', 'micro', 'macro']
+             'sine', 'const', 'flat-ends', 'extreme-first', 'extreme-last', 'sign-change-end', 'offset', 'micro', 'macro',
+             'ramp', 'one-sided', 'nyquist-mix', 'tail-heavy', 'single-changed', 'spike-range']
+EXTREME_SCALE = ('micro', 'macro', 'offset', 'spike-range')
 NARROW = ('int32', 'int16', 'int8', 'uint8', 'uint16')
 
 
@@ -1250,6 +1330,21 @@ def make_record(rng, n, cls):
         x = x * 10.0 ** rng.uniform(-12, -9)
     elif cls == 'macro':
         x = x * 10.0 ** rng.uniform(9, 12)
+    elif cls == 'ramp':                 # monotone / trend dominated
+        x = np.cumsum(np.abs(x)) * rng.choice([-1.0, 1.0]) + 0.01 * rng.normal(size=n) * (rng.random() < 0.5)
+    elif cls == 'one-sided':            # all the action at negative values, large negative mean
+        x = -np.abs(x) - rng.uniform(0, 3)
+    elif cls == 'nyquist-mix':          # energy exactly at the Nyquist frequency on top of something else
+        x = x * rng.choice([0.0, 0.01, 1.0]) + 10.0 ** rng.uniform(0, 3) * np.where(np.arange(n) % 2 == 0, 1.0, -1.0)
+    elif cls == 'tail-heavy':           # exact zeros, all the action in the last 1/8 (at least 2 samples)
+        m = max(2, n // 8)
+        x[:n - m] = 0.0
+    elif cls == 'single-changed':       # a constant with one sample changed
+        c = float(rng.choice([0.0, 1.0, -2.5]))
+        x = np.full(n, c)
+        x[int(rng.integers(n))] += rng.choice([-1.0, 1.0]) * 10.0 ** rng.uniform(-3, 1)
+    elif cls == 'spike-range':          # one sample 1e3..1e12 times larger than everything else
+        x[int(rng.integers(n))] = rng.choice([-1.0, 1.0]) * 10.0 ** rng.uniform(3, 12)
     else:
         raise ValueError(cls)
     return x
@@ -1316,7 +1411,9 @@ def run_item(ctx, eqsig, rng, idx, item):
         cls = CLASSES_A[c % len(CLASSES_A)]
         x = make_record(rng, n, cls)
         cont, ck = to_container(rng, x, idx + c // len(CLASSES_A))
-        dt = draw_dts(rng, idx, 8)[idx % 8]
+        if cls in EXTREME_SCALE and idx % 4 == 0:       # (15) float32 x extreme scale / dynamic range, every run
+            cont, ck = x.astype(np.float32), 'f32'
+        dt = draw_dts(rng, idx, 8, 2 * (n // 2))[idx % 8]
         rec = np.array(cont)
         ctx.case(core.digest(rec, ck, float(dt), 'def'), nontrivial=len(set(rec.tolist())) > 1,
                  cls='def-%s-%s-%s' % (cls, ck, _par(n)),
@@ -1356,7 +1453,9 @@ def run_item(ctx, eqsig, rng, idx, item):
         x = sinusoid(rng, length, k)
         xs.append(x)
         cont = sinusoid_container(rng, x, idx + 3 * r)
-        dts = draw_dts(rng, idx * 3 + r, ndt)
+        dts = draw_dts(rng, idx * 3 + r, ndt, 2 * (length // 2))
+        if ndt < 7:      # short lists never reach the awkward slot: put one in
+            dts[-1] = gen.awkward_dt(rng, (length // 2) if r % 2 else 2 * (length // 2))
         impl = IMPLS[r % 2] if kind == 'sin-everyN' else (IMPLS[0] if idx % 3 else IMPLS[1])   # tifq path only
         tform = TIFQ_FORMS[(idx + r) % len(TIFQ_FORMS)]
         ctx.case(core.digest(x, [float(d) for d in dts], impl, tform), nontrivial=True,
@@ -1365,7 +1464,7 @@ def run_item(ctx, eqsig, rng, idx, item):
                          'dts': [float(d) for d in dts], 'impl': impl, 'tifq_form': tform, 'head': x[:6]})
         drive_sinusoid(ctx, eqsig, cont, dts, impl, tform)
     if kind == 'sin-everyN':
-        dts = draw_dts(rng, idx, 8)
+        dts = draw_dts(rng, idx, 8, 2 * (length // 2))
         # two sinusoids of the same length back to back (micro amplitude first every third time), then one object history
         first = xs[0] if idx % 3 else sinusoid(rng, length, ks[0], amp=10.0 ** rng.uniform(-12, -9))
         drive_back_to_back(ctx, eqsig, first, xs[1], dts[idx % 8], TIFQ_FORMS[(idx // 2) % len(TIFQ_FORMS)])
